@@ -606,6 +606,7 @@ def main(chk):
                        "differ in their last / first character only (as variables, properties, symbols, map keys). Seeded random tail: random "
                        "spellings of every form, 17..20 significant digits, escape sequences, names from the documented pattern. "
                        "distinct by spelling; non-trivial: more than one character.")
+    chk.cov["rule"] += " Also: str literals in which an escaped backslash is followed by text that looks like an escape."
     step = max(1, len(lits) // 9)
     for i in range(0, len(lits), step):
         chk.sample({"src": lits[i][1], "form": lits[i][0], "impl": louts[i]["r"], "written_value": lits[i][2]})
